@@ -5,6 +5,7 @@ import (
 	"bytes"
 	"fmt"
 	"io"
+	"math"
 	"net/http"
 	"os"
 	"path/filepath"
@@ -159,7 +160,21 @@ type doc struct {
 	N    int    `json:"n" xml:"n" yaml:"n"`
 }
 
-var valueIDs = []string{"struct", "string", "bytes", "csv", "map", "int", "nilptr"}
+// extremes carries the numeric edge values through the codecs (the reference is the codec itself).
+type extremes struct {
+	I64     int64   `json:"i64" xml:"i64" yaml:"i64"`
+	MinI64  int64   `json:"min_i64" xml:"min_i64" yaml:"min_i64"`
+	U64     uint64  `json:"u64" xml:"u64" yaml:"u64"`
+	I32     int32   `json:"i32" xml:"i32" yaml:"i32"`
+	P53     int64   `json:"p53" xml:"p53" yaml:"p53"`
+	NegZero float64 `json:"negzero" xml:"negzero" yaml:"negzero"`
+	Big     float64 `json:"big" xml:"big" yaml:"big"`
+	Tiny    float64 `json:"tiny" xml:"tiny" yaml:"tiny"`
+	F32     float32 `json:"f32" xml:"f32" yaml:"f32"`
+	Frac    float64 `json:"frac" xml:"frac" yaml:"frac"`
+}
+
+var valueIDs = []string{"struct", "string", "bytes", "csv", "map", "int", "nilptr", "extremes", "emptystring", "space", "emptybytes", "nilbytes", "edgestring"}
 
 func makeValue(id string) interface{} {
 	switch id {
@@ -177,6 +192,19 @@ func makeValue(id string) interface{} {
 		return 42
 	case "nilptr":
 		return (*doc)(nil)
+	case "extremes":
+		return &extremes{I64: math.MaxInt64, MinI64: math.MinInt64, U64: math.MaxUint64, I32: math.MaxInt32, P53: 1<<53 + 1,
+			NegZero: math.Copysign(0, -1), Big: math.MaxFloat64, Tiny: math.SmallestNonzeroFloat64, F32: math.MaxFloat32, Frac: 0.1234567890123456789}
+	case "emptystring":
+		return ""
+	case "space":
+		return " "
+	case "emptybytes":
+		return []byte{}
+	case "nilbytes":
+		return []byte(nil)
+	case "edgestring":
+		return "\x00\t\r\n\x7f \ufeff\u2028\U0001F600\"\\%s%%{}é\xff"
 	}
 	panic("unknown value id " + id)
 }
